@@ -202,8 +202,9 @@ func H_C19_IndirectPing() {
 func H_C19_ProbeNode() {
 	conf := vBaseConfig()
 	// environment 4: only the TCP fallback gets through (UDP silent); otherwise TCP pings are off
-	env := vPick(5)
-	conf.DisableTcpPings = env != 4
+	// environment 5: the direct ack is late (after ProbeTimeout) and the TCP fallback answers as well
+	env := vPick(6)
+	conf.DisableTcpPings = env < 4
 	conf.IndirectChecks = vPick(2)
 	conf.ProbeTimeout = 500 * time.Millisecond
 	conf.ProbeInterval = time.Second
@@ -239,6 +240,18 @@ func H_C19_ProbeNode() {
 		tcp = &vConn{in: reply.out, delay: d}
 		f.tr.conn = tcp
 		at = conf.ProbeTimeout + d
+	case 5:
+		reply := &vConn{}
+		abuf, _ := encode(ackRespMsg, &ackResp{SeqNo: seq}, false)
+		vAssert(m.rawSendMsgStream(reply, abuf.Bytes(), "") == nil, "c19.probe.mk-tcp-reply")
+		d := time.Duration(vRange(0, int(time.Second)))
+		tcp = &vConn{in: reply.out, delay: d}
+		f.tr.conn = tcp
+		at = conf.ProbeTimeout + time.Duration(vRange(1, int(2*time.Second)))
+		go func() { time.Sleep(at); m.invokeAckHandler(ackResp{SeqNo: seq}, time.Now()) }()
+		if conf.ProbeTimeout+d < at {
+			at = conf.ProbeTimeout + d
+		}
 	case 0: // direct ack
 		at = time.Duration(vRange(0, int(3*time.Second)))
 		go func() { time.Sleep(at); m.invokeAckHandler(ackResp{SeqNo: seq}, time.Now()) }()
@@ -261,7 +274,16 @@ func H_C19_ProbeNode() {
 
 	answered := (env == 0 || env == 4) && at < interval
 	vAssert(took <= interval, "c19.probe.returns-within-scaled-interval")
-	if env == 4 && at < interval {
+	// nothing the probe started is still around once the interval and the stream timeout have passed
+	vAssert(vLiveGoroutines() == 0, "c19.probe.no-goroutine-left")
+	if env == 5 {
+		if at < interval {
+			vAssert(target.State == StateAlive && len(f.ev.log) == 0, "c19.probe.both-answer-not-suspected")
+			vCover("c19.probe.both")
+		} else if at > interval {
+			vAssert(target.State == StateSuspect, "c19.probe.unanswered-suspected")
+		}
+	} else if env == 4 && at < interval {
 		// answered over TCP only: the member stays, and the probe counts as a success for our own health
 		vAssert(target.State == StateAlive && len(f.ev.log) == 0, "c19.probe.tcp-answer-not-suspected")
 		want := score - 1
